@@ -1,5 +1,5 @@
 (** Property C06 — a template closes exactly when its reported parameters and queries are supplied. *)
-From Tx3 Require Import Base Tir Reduce Walk Reduce_proofs.
+From Tx3 Require Import Base Tir Reduce Walk Reduce_proofs Reduce_inputs Reduce_closed.
 
 (** the gate before compilation: a constant template holds no unresolved parameter at any position *)
 Theorem C06_constant_closed : forall t, tx_is_constant t = true -> tx_unresolved t = [].
@@ -18,6 +18,11 @@ Proof. exact apply_args_closes. Qed.
 Theorem C06_apply_fees_closes : forall fee e,
   sets_closed e = true -> forall n, (UFees, n) ∉ unresolved (apply_fees fee e).
 Proof. exact apply_fees_closes. Qed.
+(** supplying UTxOs for every reported query leaves no input placeholder, nested queries included *)
+Theorem C06_apply_inputs_closes : forall ins e,
+  sets_closed e = true -> (forall q, q ∈ map fst (queries e) -> q ∈ map fst ins) ->
+  forall n, (UInput, n) ∉ unresolved (apply_inputs ins e).
+Proof. exact apply_inputs_closes. Qed.
 (** a reported parameter without an argument is refused by name *)
 Theorem C06_missing_arg_refused : forall t args k,
   k ∈ map fst (find_params t) -> k ∉ map fst args ->
@@ -28,6 +33,19 @@ Theorem C06_all_args_accepted : forall t args,
   (forall k, k ∈ map fst (find_params t) -> is_Some (lookup_arg k args)) ->
   safe_apply_args t args = Ok (tx_apply_args args t).
 Proof. exact all_args_accepted. Qed.
+(** reduce never re-opens a closed template: no parameter, query, fee reference or compiler
+    operation reappears, at any fuel and for any set order (the datums of resolved UTxOs are
+    plain data) *)
+Theorem C06_reduce_keeps_closed : forall pick f e e',
+  is_constant e = true -> datums_plain e = true -> reduce pick f e = Ok e' ->
+  is_constant e' = true /\ datums_plain e' = true.
+Proof. exact reduce_keeps_closed. Qed.
+(** ... and so for every slot of a whole transaction: a template that passed the gate before
+    compilation (tx_is_constant) still passes it after tx_reduce *)
+Theorem C06_tx_reduce_keeps_closed : forall pick t t',
+  tx_is_constant t = true -> tx_datums_plain t = true -> tx_reduce pick t = Ok t' ->
+  tx_is_constant t' = true /\ tx_datums_plain t' = true.
+Proof. exact tx_reduce_keeps_closed. Qed.
 
 Print Assumptions C06_constant_closed.
 Print Assumptions C06_params_complete.
@@ -36,3 +54,6 @@ Print Assumptions C06_apply_args_closes.
 Print Assumptions C06_apply_fees_closes.
 Print Assumptions C06_missing_arg_refused.
 Print Assumptions C06_all_args_accepted.
+Print Assumptions C06_apply_inputs_closes.
+Print Assumptions C06_reduce_keeps_closed.
+Print Assumptions C06_tx_reduce_keeps_closed.
